@@ -114,7 +114,7 @@ var c16Palette = func() [64]color.RGBA {
 	return p
 }()
 
-const c16NFills = 6
+const c16NFills = 7
 
 func c16Fill(d ivg.Destination, fill int, indirect bool, s float32) {
 	inv := 1 / s
@@ -138,6 +138,15 @@ func c16Fill(d ivg.Destination, fill int, indirect bool, s float32) {
 		// the initial content of a colour register (seeded from the palette) vs the direct colour
 		d.SetCSel(3)
 		if !indirect {
+			d.SetCReg(0, false, ivg.RGBAColor(c16FlatOpaque))
+		}
+	case 6:
+		// the path is gated by a level-of-detail range in pixels: drawn up to a height of 8
+		// (emit lifts the gate again after the path)
+		d.SetLOD(0, 8.5)
+		if indirect {
+			d.SetCReg(0, false, ivg.PaletteIndexColor(3))
+		} else {
 			d.SetCReg(0, false, ivg.RGBAColor(c16FlatOpaque))
 		}
 	case 5:
@@ -201,6 +210,17 @@ type c16Prog struct {
 	Fills  []int `json:"fills"`
 }
 
+// gated: the program has a path that is only drawn up to a certain height; when nothing is
+// drawn nothing replaces the previous content either, so such programs start from cleared rectangles.
+func (p c16Prog) gated() bool {
+	for _, f := range p.Fills {
+		if f == 6 {
+			return true
+		}
+	}
+	return false
+}
+
 func (p c16Prog) String() string {
 	s := ""
 	for i := range p.Shapes {
@@ -223,6 +243,9 @@ func (p c16Prog) emit(d ivg.Destination, k int, indirect bool, from, to int, res
 	for i := from; i < to; i++ {
 		c16Fill(d, p.Fills[i], indirect, s)
 		c16Shapes[p.Shapes[i]].draw(d, 0, s)
+		if p.Fills[i] == 6 {
+			d.SetLOD(0, float32(math.Inf(1)))
+		}
 	}
 }
 
@@ -251,6 +274,11 @@ func c16Render(img draw.Image, rect image.Rectangle, op draw.Op, f func(d ivg.De
 	vz := vec.NewRasterizer(img)
 	vz.DrawOp = op
 	var z render.Renderer
+	if (rect.Dx()+rect.Min.X)%2 == 1 {
+		// configured twice: first a rasteriser over another (larger) image with another rectangle
+		other := image.NewRGBA(image.Rect(0, 0, rect.Dy()+5, rect.Dx()+3))
+		z.SetRasterizer(vec.NewRasterizer(other), other.Bounds())
+	}
 	z.SetRasterizer(vz, rect)
 	f(&z)
 }
@@ -281,8 +309,8 @@ func init() {
 	mc.Register(&mc.Check{
 		ID:    "C16",
 		Level: "exploration",
-		Rule: "engine P over (graphic x destination x rectangle x transformation): every one-path program over 10 shapes (L, l, H/V, Q+T, q+t, C+S, c+s, A, a, sub-paths via Y and y) x 6 fills (opaque via palette index, translucent via a rounding-sensitive blend, linear-pad gradient, radial-reflect gradient, initial content of a colour register, palette index and register reference with high bits set after the like-numbered register was overwritten) x sizes {1,7,64,512,513,600,40x100,100x40,511x3} (thorough: every n x n for n <= 17, 510..514 around the threshold incl. 511x513 / 513x511, 2x3, 3x514, 1024x16, 256x700, 700x256) x {RGBA, Alpha} x {Src, Over}, and every ordered pair of one-path programs (3600) at sizes 64 and 7, rendered with raster/vec. " +
-			"Relations, pixel buffers byte for byte: (a) rectangle at offset (7,9), and (o) at offset (0,0), inside a larger image with sentinel margin == image of its own, margin untouched; (b) viewBox, coordinates and radii x 2^k, gradient matrix linear part x 2^-k, k in {-5,-1,+2,+8} (thorough: 14 exponents in -8..8 for sizes <= 100) == original; (c) colours via palette index / register reference / blend == direct colours; (d) [P1,P2] with operator Src == P1 with Src then P2 with Over by a fresh Renderer; (r) relation (c) on a Renderer that rendered another graphic with the same palette before; (e) relation (c) between the two graphics in byte form (Encoder -> Decode -> Renderer). " +
+		Rule: "engine P over (graphic x destination x rectangle x transformation): every one-path program over 10 shapes (L, l, H/V, Q+T, q+t, C+S, c+s, A, a, sub-paths via Y and y) x 7 fills (a path gated by a level-of-detail range, opaque via palette index, translucent via a rounding-sensitive blend, linear-pad gradient, radial-reflect gradient, initial content of a colour register, palette index and register reference with high bits set after the like-numbered register was overwritten) x sizes {1,7,64,512,513,600,40x100,100x40,511x3} (thorough: every n x n for n <= 17, 510..514 around the threshold incl. 511x513 / 513x511, 2x3, 3x514, 1024x16, 256x700, 700x256) x {RGBA, Alpha} x {Src, Over}, and every ordered pair of one-path programs (4900) at sizes 64 and 7, rendered with raster/vec. " +
+			"Relations, pixel buffers byte for byte: (a) rectangle at offset (7,9), and (o) at offset (0,0), inside a larger image with sentinel margin == image of its own, margin untouched; (b) viewBox, coordinates and radii x 2^k, gradient matrix linear part x 2^-k, k in {-5,-1,+2,+8} (thorough: 14 exponents in -8..8 for sizes <= 100) == original; (c) colours via palette index / register reference / blend == direct colours; (d) [P1,P2] with operator Src == P1 with Src then P2 with Over by a fresh Renderer; (r) relation (c) on a Renderer that rendered another graphic with the same palette before; (e) relation (c) between the two graphics in byte form (Encoder -> Decode -> Renderer); (t) the graphic at two places of one image through one Renderer and one rasteriser == image of its own, twice. " +
 			"distinct = hash of the rendered pixels; non-trivial = render that produced at least one non-zero and one zero pixel",
 		Assumptions: []string{"golang.org/x/image/vector is a trusted dependency", "every float operation of the renderer commutes exactly with power-of-two scaling in the absence of overflow/underflow (the exponent set avoids both)"},
 		Units:       func(tier string) int { return n1 + n1 },
@@ -299,6 +327,9 @@ func init() {
 							big := sz[0] > 100
 							c16Check(w, &c16Case{Prog: p, W: sz[0], H: sz[1], Alpha: alpha, Op: op, Rel: "a"})
 							c16Check(w, &c16Case{Prog: p, W: sz[0], H: sz[1], Alpha: alpha, Op: op, Rel: "o"})
+							if sz[0] <= 100 {
+								c16Check(w, &c16Case{Prog: p, W: sz[0], H: sz[1], Alpha: alpha, Op: op, Rel: "t"})
+							}
 							c16Check(w, &c16Case{Prog: p, W: sz[0], H: sz[1], Alpha: alpha, Op: op, Rel: "c"})
 							c16Check(w, &c16Case{Prog: p, W: sz[0], H: sz[1], Alpha: alpha, Op: op, Rel: "r"})
 							if sz[0] <= 100 {
@@ -388,7 +419,7 @@ func c16Check(w *mc.W, cs *c16Case) {
 			(*bigPix)[i] = 0xab
 		}
 		rect := image.Rect(mx, my, mx+cs.W, my+cs.H)
-		if op != draw.Src {
+		if op != draw.Src || p.gated() {
 			// Over composes with what is there: start from the same (empty) content as the image of
 			// its own. With Src the first path replaces the whole rectangle, so the sentinel content
 			// is left in place and must not show through.
@@ -419,6 +450,58 @@ func c16Check(w *mc.W, cs *c16Case) {
 						}
 					} else if got != (color.RGBA{0xab, 0xab, 0xab, 0xab}) {
 						fail("offset:outside-modified", fmt.Sprintf("pixel (%d,%d) outside the target rectangle was modified", x, y))
+						return
+					}
+				}
+			}
+		}
+	case "t":
+		// the same graphic at two places of one image, one Renderer and one rasteriser, the
+		// rasteriser handed to SetRasterizer again for the second place (the caller re-arms DrawOp)
+		bigR := image.Rect(0, 0, cs.W+6, 2*cs.H+5)
+		big, bigPix := c16NewImg(cs.Alpha, bigR)
+		for i := range *bigPix {
+			(*bigPix)[i] = 0xab
+		}
+		r1 := image.Rect(1, 0, 1+cs.W, cs.H)
+		r2 := image.Rect(5, cs.H+4, 5+cs.W, 2*cs.H+4)
+		if op != draw.Src || p.gated() {
+			draw.Draw(big, r1, image.Transparent, image.Point{}, draw.Src)
+			draw.Draw(big, r2, image.Transparent, image.Point{}, draw.Src)
+		}
+		vz := vec.NewRasterizer(big)
+		var z render.Renderer
+		vz.DrawOp = op
+		z.SetRasterizer(vz, r1)
+		p.emit(&z, 0, false, 0, n, true)
+		vz.DrawOp = op
+		z.SetRasterizer(vz, r2)
+		p.emit(&z, 0, false, 0, n, true)
+		at := func(im draw.Image, x, y int) color.RGBA {
+			if cs.Alpha {
+				a := im.(*image.Alpha).AlphaAt(x, y).A
+				return color.RGBA{a, a, a, a}
+			}
+			return im.(*image.RGBA).RGBAAt(x, y)
+		}
+		for y := bigR.Min.Y; y < bigR.Max.Y; y++ {
+			for x := bigR.Min.X; x < bigR.Max.X; x++ {
+				got := at(big, x, y)
+				pt := image.Pt(x, y)
+				switch {
+				case pt.In(r1):
+					if want := at(base, x-r1.Min.X, y-r1.Min.Y); got != want {
+						fail("two-places:first-differs", fmt.Sprintf("pixel (%d,%d) of the first place is %v, image of its own has %v", x-r1.Min.X, y-r1.Min.Y, got, want))
+						return
+					}
+				case pt.In(r2):
+					if want := at(base, x-r2.Min.X, y-r2.Min.Y); got != want {
+						fail("two-places:second-differs", fmt.Sprintf("pixel (%d,%d) of the second place is %v, image of its own has %v", x-r2.Min.X, y-r2.Min.Y, got, want))
+						return
+					}
+				default:
+					if got != (color.RGBA{0xab, 0xab, 0xab, 0xab}) {
+						fail("two-places:outside-modified", fmt.Sprintf("pixel (%d,%d) outside both target rectangles was modified", x, y))
 						return
 					}
 				}
